@@ -616,7 +616,7 @@ def _keystr(key):
 
 
 def _is_fresh(v):
-    return isinstance(v, (LD, LL, Comp, KeySet)) and getattr(v, "fresh", True)
+    return (isinstance(v, (LD, LL, Comp, KeySet)) and getattr(v, "fresh", True)) or getattr(v, "is_local_object", False)
 
 
 def _has_fresh(v):
